@@ -148,6 +148,8 @@ func main() {
 		runDecode(out, *prop, *seed, *n)
 	case "race":
 		runRace(newUniverse(), out, *prop, *seed, *n)
+	case "corpus":
+		runCorpus(out, fs.Arg(0))
 	case "replay":
 		p := *prop
 		if !flagGiven(fs, "prop") {
